@@ -335,11 +335,16 @@ func tryReplayOnce(l *Loaded, e *Engine, fr *FuncResult, r *OblResult, prop stri
 	}()
 	x := fr.Exec
 	fn := x.top
-	if fn.Pkg == nil || fn.Parent() != nil {
+	fpkg := fn.Pkg
+	if fpkg == nil && fn.Origin() != nil && len(fn.TypeArgs()) > 0 {
+		// instance of a generic function: replayed through the generic function with explicit type arguments
+		fpkg = fn.Origin().Pkg
+	}
+	if fpkg == nil || fn.Parent() != nil {
 		res.Why = "function is a closure or synthetic: no replay entry point"
 		return res
 	}
-	rp := &replayer{x: x, imports: map[string]string{}, pkg: fn.Pkg.Pkg}
+	rp := &replayer{x: x, imports: map[string]string{}, pkg: fpkg.Pkg}
 	st := &State{heap: map[string]*Term{}, ghost: map[string]*Term{}, alloc: x.c.Named("alloc0", SInt)}
 	rp.st = st
 	var nodes []*vnode
@@ -537,11 +542,22 @@ func (rp *replayer) testSource(fn *ssa.Function, fr *FuncResult, o *Obligation, 
 	}
 	call := ""
 	callArgs := pnames
+	fname := fn.Name()
+	if o := fn.Origin(); o != nil && len(fn.TypeArgs()) > 0 {
+		fname = o.Name()
+		if sig.Recv() == nil {
+			var tas []string
+			for _, ta := range fn.TypeArgs() {
+				tas = append(tas, rp.typeStr(ta))
+			}
+			fname += "[" + strings.Join(tas, ", ") + "]"
+		}
+	}
 	if sig.Recv() != nil {
-		call = "(" + pnames[0] + ")." + fn.Name()
+		call = "(" + pnames[0] + ")." + fname
 		callArgs = pnames[1:]
 	} else {
-		call = fn.Name()
+		call = fname
 	}
 	// variadic
 	ca := strings.Join(callArgs, ", ")
@@ -600,7 +616,7 @@ func (rp *replayer) testSource(fn *ssa.Function, fr *FuncResult, o *Obligation, 
 	for _, p := range posts {
 		fmt.Fprintf(&body, "\tfmt.Printf(\"VERIF-REPLAY: post[%s]=%%v\\n\", %s)\n", p.label, p.expr)
 	}
-	fmt.Fprintf(&sb, "package %s\n\nimport (\n\t\"fmt\"\n\t\"reflect\"\n\t\"testing\"\n", fn.Pkg.Pkg.Name())
+	fmt.Fprintf(&sb, "package %s\n\nimport (\n\t\"fmt\"\n\t\"reflect\"\n\t\"testing\"\n", rp.pkg.Name())
 	for path, name := range rp.imports {
 		if path == "fmt" || path == "reflect" || path == "testing" {
 			continue
@@ -654,7 +670,7 @@ func (t *goTranslator) expr(e Expr) (string, error) {
 			}
 			return s, nil
 		}
-		if t.fn.Pkg != nil && t.fn.Pkg.Pkg.Scope().Lookup(n.Name) != nil {
+		if t.rp.pkg != nil && t.rp.pkg.Scope().Lookup(n.Name) != nil {
 			return n.Name, nil
 		}
 		return "", fmt.Errorf("identifier %s is not visible to a test", n.Name)
@@ -741,6 +757,17 @@ func (t *goTranslator) expr(e Expr) (string, error) {
 		case "isnil":
 			s, err := t.expr(n.Args[0])
 			return "(" + s + " == nil)", err
+		case "typeis":
+			a, e1 := t.expr(n.Args[0])
+			lit, ok := n.Args[1].(*ELit)
+			if e1 != nil || !ok {
+				return "", fmt.Errorf("typeis args")
+			}
+			T := t.rp.x.specType(&specScope{x: t.rp.x, fr: &Frame{fn: t.fn}}, lit.Text)
+			if T == nil {
+				return "", fmt.Errorf("typeis: unknown type %s", lit.Text)
+			}
+			return fmt.Sprintf("func() bool { _, ok := any(%s).(%s); return ok }()", a, t.rp.typeStr(T)), nil
 		case "bytesEq":
 			a, e1 := t.expr(n.Args[0])
 			b, e2 := t.expr(n.Args[1])
@@ -788,8 +815,8 @@ func (t *goTranslator) expr(e Expr) (string, error) {
 		case "len", "cap", "int", "int8", "int16", "int32", "int64", "uint", "uint8", "uint16", "uint32", "uint64", "byte", "uintptr":
 			return n.Fun + "(" + strings.Join(as, ", ") + ")", nil
 		}
-		if t.fn.Pkg != nil {
-			if o := t.fn.Pkg.Pkg.Scope().Lookup(n.Fun); o != nil {
+		if t.rp.pkg != nil {
+			if o := t.rp.pkg.Scope().Lookup(n.Fun); o != nil {
 				if _, ok := o.(*types.TypeName); ok {
 					return n.Fun + "(" + strings.Join(as, ", ") + ")", nil
 				}
